@@ -706,6 +706,63 @@ def check_saturate(ck, prog):
         raise AnalysisBroken("C09-SATURATE: no memconfig function sums a nested memory-usage figure (file_info expected)")
 
 
+def check_usage_not_remaining(ck, prog):
+    """What a memconfig function reports as memory usage must not be computed from a "how much is left" counter: a member
+    that the coding function only ever decrements (Records left to decode) shrinks while the allocated memory grows, so
+    lzma_memusage() goes down during decoding, lzma_memlimit_set() accepts limits below what is already allocated, and
+    the file info decoder later trips over an index that is bigger than its own limit."""
+    ck.rule("C09-USAGE", "memory usage reports are not derived from a counter that only counts down")
+    cg = common.callgraph(prog)
+    mcs = set()
+    for (rec, field), fns in cg.slots.items():
+        if field == "memconfig":
+            mcs |= set(fns)
+    n = 0
+    for name in sorted(mcs):
+        for f in prog.functions.get(name, []):
+            if not f.blocks:
+                continue
+            base = f.file.rsplit("/", 1)[-1]
+            mems = {}
+            for b, i, e in f.iter_elems():
+                for (l, r, op, nd) in ex.writes(e):
+                    if r is None or "memusage" not in ex.show(l):
+                        continue
+                    for x in ex.walk(r):
+                        if x.get("k") == "mem" and ex.show(x.get("b")) == "coder":
+                            mems[(x.get("rec"), x["f"])] = nd
+            for fk, site in sorted(mems.items()):
+                dec = inc = None
+                for g in prog.fns_in(base):
+                    if not g.blocks:
+                        continue
+                    for b, i, e in g.iter_elems():
+                        for (l, r, op, nd) in ex.writes(e):
+                            if ex.field_key(l) == fk:
+                                if op == "-=":
+                                    dec = dec or (g, nd)
+                                if op == "+=":
+                                    inc = inc or (g, nd)
+                        for x in ex.walk(e):
+                            if x.get("k") == "un" and ex.field_key(x.get("e")) == fk:
+                                if x["op"] in ("pre--", "post--"):
+                                    dec = dec or (g, x)
+                                if x["op"] in ("pre++", "post++"):
+                                    inc = inc or (g, x)
+                n += 1
+                ck.saw_function(f)
+                bad = dec is not None and inc is None
+                ck.ob("C09-USAGE", "%s:%s" % (f.name, fk[1]), not bad, common.where(f, site),
+                      "%s: %s is %s" % (f.name, fk[1], "never decremented" if dec is None else "a real counter (incremented and decremented)")
+                      if not bad else
+                      "%s() computes *memusage from coder->%s, which %s() only counts DOWN (line %s: what is left to do): the "
+                      "reported usage shrinks while memory is being allocated, so after decoding lzma_memusage() reports almost "
+                      "nothing and lzma_memlimit_set() accepts a limit below what is in use" % (
+                          f.name, fk[1], dec[0].name, ex.line(dec[1])), key="USAGE:%s:%s" % (f.name, fk[1]))
+    if n < 4:
+        raise AnalysisBroken("C09-USAGE: fewer than 4 members feeding memory usage reports found")
+
+
 def run(ck):
     ck.explanation = (
         "Must-pass (edge cut) rules on the resume-aware product graphs of the container decoders: every "
@@ -727,6 +784,7 @@ def run(ck):
     check_terms(ck, prog, prog_xz)
     check_clamp(ck, prog)
     check_saturate(ck, prog)
+    check_usage_not_remaining(ck, prog)
     check_needed(ck, prog)
     from . import reinit
     ck.rule("C09-STALENEXT", "memconfig and the other entry points use a lazily initialised nested decoder only behind a test of coder->sequence")
